@@ -30,8 +30,8 @@ ASSUMPTIONS = [
     'and with parseinfo on also the (rule, pos, endpos) of every dict-like node',
 ]
 FLOORS = {
-    'quick': {'programs': 6000, 'both_accepted': 12000, 'setting:ignorecase': 1200, 'setting:nameguard_off': 1200,
-              'setting:whitespace': 1200, 'setting:parseinfo': 1200, 'sem:tagging': 2000, 'sem:identity': 2000, 'sem:tagging+params': 2000,
+    'quick': {'programs': 6000, 'both_accepted': 12000, 'setting:ignorecase': 600, 'setting:nameguard_off': 600,
+              'setting:whitespace': 600, 'setting:parseinfo': 600, 'setting:comments': 600, 'setting:eol_comments': 600, 'setting:namechars': 600, 'setting:memo_off': 600, 'setting:ws_none': 600, 'sem:tagging': 2000, 'sem:identity': 2000, 'sem:tagging+params': 2000,
               'kwlike_names': 400, 'pyconst_tokens': 400, 'long_names': 600, 'includes_or_based_rules': 500, 'reused_instance_parses': 20000, 'with_params': 400, 'with_directives': 1200, 'assoc_joins': 150, 'underscored_names': 400},
     'thorough': {'programs': 100000, 'both_accepted': 200000},
 }
@@ -197,6 +197,12 @@ SETTINGS = [
     ('nameguard_off', {'nameguard': False}),
     ('whitespace', {'whitespace': r'[ ,]+'}),
     ('parseinfo', {'parseinfo': True}),
+    # further parse-time settings both back-ends must read the same way (inputs get comments where these are on)
+    ('comments', {'comments': r'\(\*(?:.|\n)*?\*\)'}),
+    ('eol_comments', {'eol_comments': r'#[^\n]*'}),
+    ('namechars', {'namechars': '-_', 'nameguard': True}),
+    ('memo_off', {'memoization': False}),
+    ('ws_none', {'whitespace': ''}),
 ]
 SEMS = ['none', 'identity', 'tagging', 'tagging+params']
 
@@ -344,6 +350,15 @@ def check_pair(acc, g, texts, origin, features=()):
     for text in texts:
         sname, settings = SETTINGS[0] if rng.random() < 0.4 else rng.choice(SETTINGS)
         semname = 'none' if rng.random() < 0.5 else rng.choice(SEMS)
+        if sname == 'comments' and rng.random() < 0.7:
+            i = rng.randrange(len(text) + 1)
+            text = text[:i] + rng.choice([' (* a b *) ', '(**)', ' (* c\n*)']) + text[i:]
+        elif sname == 'eol_comments' and rng.random() < 0.7:
+            i = rng.randrange(len(text) + 1)
+            text = text[:i] + rng.choice([' # a b\n', '#\n']) + text[i:]
+        elif sname == 'namechars' and rng.random() < 0.5:
+            i = rng.randrange(len(text) + 1)
+            text = text[:i] + rng.choice('-_') + text[i:]
         a, b = p.run(text, settings, semname)
         acc.evaluations += 1
         acc.count('setting:' + sname)
@@ -363,9 +378,9 @@ def check_pair(acc, g, texts, origin, features=()):
                 acc.violation(f'reused-parser-object/{relation(b, c)}',
                               f'a generated parser object that already parsed other inputs gives a different result than a fresh one: '
                               f'grammar {L.grammar_text(g).strip()!r} input {text!r} settings {settings} semantics {semname}: '
-                              f'FRESH={b} REUSED={c} (earlier inputs: {texts[:texts.index(text)]})',
+                              f'FRESH={b} REUSED={c} (earlier inputs: {texts[:5]})',
                               {'grammar': L.to_json(g), 'grammar_text': L.grammar_text(g), 'text': text, 'settings': settings,
-                               'sem': semname, 'earlier': texts[:texts.index(text)], 'origin': origin})
+                               'sem': semname, 'earlier': texts[:5], 'origin': origin})
             continue
         acc.count('disagreements_checked')
         mech = mechanism(g, text, settings, tag, a, b)
